@@ -46,11 +46,20 @@ def _enc(a):
 # --------------------------------------------------------------------------------------------
 # population objects
 # --------------------------------------------------------------------------------------------
-def gen_pop(rng, n=None, p=None, t=None, nchr=None):
+def gen_pop(rng, n=None, p=None, t=None, nchr=None, nphase=2, inbred=None):
+    """`inbred`: None (random phases), "full" (every taxon homozygous at every locus: all phases equal) or
+    "partial" (homozygous at some loci, heterozygous at others)"""
     n = n or rng.choice([3, 4, 4, 5, 6])
     p = p or rng.choice([3, 4, 5, 6])
     t = t or rng.choice([1, 2, 2, 3])
-    geno = [[[rng.choice([0, 1]) for _ in range(p)] for _ in range(n)] for _ in range(2)]
+    geno = [[[rng.choice([0, 1]) for _ in range(p)] for _ in range(n)] for _ in range(nphase)]
+    if inbred:
+        homo = [inbred == "full" or rng.random() < 0.6 for _ in range(p)]
+        for ph in geno[1:]:
+            for i in range(n):
+                for j in range(p):
+                    if homo[j]:
+                        ph[i][j] = geno[0][i][j]
     # fixed loci now and then
     for j in range(p):
         r = rng.random()
@@ -63,7 +72,7 @@ def gen_pop(rng, n=None, p=None, t=None, nchr=None):
                 for row in ph:
                     row[j] = 0
     nchr = nchr or rng.choice([1, 2]) if p >= 4 else 1
-    cut = rng.randint(2, p - 2) if nchr == 2 else p
+    cut = (rng.randint(2, p - 2) if rng.random() < 0.8 else rng.choice([1, p - 1])) if nchr == 2 else p
     chrgrp = [1 if j < cut else 2 for j in range(p)]
     genpos, pos = [], Fraction(0)
     for j in range(p):
@@ -71,7 +80,7 @@ def gen_pop(rng, n=None, p=None, t=None, nchr=None):
             pos = Fraction(0)
         pos += Fraction(rng.randint(1, 8), 16)
         genpos.append(canon.enc(pos))
-    labels = rng.sample(range(1, 30), rng.randint(1, max(1, n - 1)))
+    labels = rng.sample(range(1, 30), rng.randint(1, min(12, max(1, n - 1))))
     return {"geno": geno, "taxa_grp": [rng.choice(labels) for _ in range(n)], "chrgrp": chrgrp, "genpos": genpos,
             "u": [[canon.enc(Fraction(rng.choice([-6, -4, -3, -2, -1, 1, 2, 3, 5, 8]), rng.choice([1, 2, 4])))
                    for _ in range(t)] for _ in range(p)],
@@ -85,7 +94,7 @@ def make_pgmat(pop, phased=True):
     from pybrops.popgen.gmat.DenseGenotypeMatrix import DenseGenotypeMatrix
     mat = numpy.array(pop["geno"], dtype="int8")
     n, p = mat.shape[1], mat.shape[2]
-    kw = dict(taxa=numpy.array([f"tx{i:02d}" for i in range(n)], dtype=object),
+    kw = dict(taxa=numpy.array(taxa_names(pop), dtype=object),
               taxa_grp=numpy.array(pop["taxa_grp"], dtype="int64"),
               vrnt_chrgrp=numpy.array(pop["chrgrp"], dtype="int64"),
               vrnt_phypos=numpy.arange(p, dtype="int64") * 10 + 1,
@@ -96,7 +105,7 @@ def make_pgmat(pop, phased=True):
     if phased:
         g = DensePhasedGenotypeMatrix(mat=mat, **kw)
     else:
-        g = DenseGenotypeMatrix(mat=mat.sum(0).astype("int8"), ploidy=2, **kw)
+        g = DenseGenotypeMatrix(mat=mat.sum(0).astype("int8"), ploidy=mat.shape[0], **kw)
     g.group_vrnt()
     return g
 
@@ -109,10 +118,89 @@ def make_gpmod(pop):
                                            trait=numpy.array([f"y{j}" for j in range(u.shape[1])], dtype=object))
 
 
+def taxa_names(pop):
+    """taxon names: `pop["taxa"]` (a list of distinct integers, any order) or 0..n-1"""
+    n = len(pop["geno"][0])
+    return [f"tx{int(v):03d}" for v in pop.get("taxa", range(n))]
+
+
 def Zmat(pop):
-    """{0,1,2} genotype matrix, exact"""
+    """allele-count genotype matrix (sum over the phases), exact"""
     g = pop["geno"]
-    return [[g[0][i][j] + g[1][i][j] for j in range(len(g[0][0]))] for i in range(len(g[0]))]
+    return [[sum(ph[i][j] for ph in g) for j in range(len(g[0][0]))] for i in range(len(g[0]))]
+
+
+def ploidy_of(pop):
+    return len(pop["geno"])
+
+
+def permute_pop(pop, order):
+    """the population with its taxa in the order `order` (new position -> old index)"""
+    q = dict(pop)
+    q["geno"] = [[ph[i] for i in order] for ph in pop["geno"]]
+    q["taxa_grp"] = [pop["taxa_grp"][i] for i in order]
+    names = pop.get("taxa", list(range(len(pop["taxa_grp"]))))
+    q["taxa"] = [names[i] for i in order]
+    return q
+
+
+def sorted_order(pop):
+    """the order `sort_taxa()` / `group_taxa()` produce: by group label, then by name"""
+    names = taxa_names(pop)
+    return sorted(range(len(names)), key=lambda i: (pop["taxa_grp"][i], names[i]))
+
+
+def effective(case):
+    """the case as the factory sees it after the history step (objects mutated in place) has been applied"""
+    h = case.get("history")
+    if not h:
+        return case
+    c = {k: v for k, v in case.items() if k != "history"}
+    if "pop" in case:
+        pop = case["pop"]
+        if h["op"] == "reorder":
+            c["pop"] = permute_pop(pop, h["perm"])
+        elif h["op"] in ("sort", "group"):
+            c["pop"] = permute_pop(pop, sorted_order(pop))
+        elif h["op"] == "assign_mat":
+            c["pop"] = dict(pop, geno=h["geno"])
+        elif h["op"] == "assign_u":
+            c["pop"] = dict(pop, u=h["u"])
+        else:
+            raise ValueError(h["op"])
+    else:
+        bv = case["bv"]
+        if h["op"] == "reorder":
+            c["bv"] = dict(bv, mat=[bv["mat"][i] for i in h["perm"]], taxa_grp=[bv["taxa_grp"][i] for i in h["perm"]])
+        elif h["op"] == "assign_mat":
+            c["bv"] = dict(bv, mat=h["mat"])
+        else:
+            raise ValueError(h["op"])
+    return c
+
+
+def apply_history(h, pool):
+    """mutate the pooled population objects in place"""
+    op = h["op"]
+    if "gmat" in pool:
+        g = pool["gmat"]
+        if op == "reorder":
+            g.reorder_taxa(numpy.array(h["perm"]))
+        elif op == "sort":
+            g.sort_taxa()
+        elif op == "group":
+            g.group_taxa()
+        elif op == "assign_mat":
+            m = numpy.array(h["geno"], dtype="int8")
+            g.mat = m if g.mat.ndim == 3 else m.sum(0).astype("int8")
+        elif op == "assign_u":
+            pool["gpmod"].u_a = numpy.array([[_f(v) for v in r] for r in h["u"]])
+    elif "bvmat" in pool:
+        b = pool["bvmat"]
+        if op == "reorder":
+            b.reorder_taxa(numpy.array(h["perm"]))
+        elif op == "assign_mat":
+            b.mat = numpy.array([[_f(v) for v in r] for r in h["mat"]])
 
 
 def gebv_exact(pop):
@@ -167,14 +255,16 @@ def shares_of(enc, dv, n):
 # generation
 # --------------------------------------------------------------------------------------------
 FACTORIES = ["bvmat", "family_bvmat", "l1_numpy", "wgebv_numpy", "wgebv_gmat", "random_object", "mogs_gmat",
-             "gebv_gmat", "cmat", "l2_gmat", "uc", "ohv", "opv", "gb", "embv", "wgebvmat", "embvmat"]
+             "gebv_gmat", "cmat", "l2_gmat", "uc", "ohv", "opv", "gb", "embv", "wgebvmat", "embvmat", "embvmat_real",
+             "ohvmat_direct"]
 
 
 COMBOS = [("bvmat", "EBV"), ("bvmat", "GEBV"), ("family_bvmat", "FAMILY"), ("l1_numpy", "L1"),
           ("wgebv_numpy", "WGEBV"), ("wgebv_numpy", "GWGEBV"), ("wgebv_gmat", "WGEBV"), ("wgebv_gmat", "GWGEBV"),
           ("random_object", "RANDOM"), ("mogs_gmat", "PAFD"), ("mogs_gmat", "PAU"), ("mogs_gmat", "MOGS"),
           ("gebv_gmat", "GEBV"), ("cmat", "OCS"), ("cmat", "MGR"), ("cmat", "MEH"), ("l2_gmat", "L2"), ("uc", "UC"),
-          ("ohv", "OHV"), ("opv", "OPV"), ("gb", "GB"), ("embv", "EMBV"), ("wgebvmat", "WGEBVMAT"), ("embvmat", "EMBVMAT")]
+          ("ohv", "OHV"), ("opv", "OPV"), ("gb", "GB"), ("embv", "EMBV"), ("wgebvmat", "WGEBVMAT"), ("embvmat", "EMBVMAT"),
+          ("embvmat_real", "EMBVMAT"), ("ohvmat_direct", "OHV")]
 
 
 def gen_case(rng, factory=None, crit=None):
@@ -184,6 +274,12 @@ def gen_case(rng, factory=None, crit=None):
             case = _gen_case(rng, factory)
             if case["crit"] == crit:
                 break
+    if case["factory"] in HISTORY_FACTORIES and rng.random() < 0.3:
+        if "pop" in case and "taxa" not in case["pop"]:
+            # distinct names in arbitrary order, so that sort_taxa() / group_taxa() really move rows
+            n = len(case["pop"]["geno"][0])
+            case["pop"]["taxa"] = rng.sample(range(100), n)
+        case["history"] = gen_history(rng, case)
     return case
 
 
@@ -199,6 +295,8 @@ def _gen_case(rng, factory=None):
                         "location": [canon.enc(Fraction(rng.randint(-20, 20), 2)) for _ in range(t)],
                         "scale": [canon.enc(Fraction(rng.randint(1, 12), 4)) for _ in range(t)],
                         "taxa_grp": [rng.randint(1, 4) for _ in range(n)]})
+        if rng.random() < 0.2:
+            case["bv"]["labels"] = False
         case["decn"] = decide(rng, case["enc"], n)
     elif fac == "family_bvmat":
         n, t = rng.randint(2, 6), rng.randint(1, 3)
@@ -221,7 +319,9 @@ def _gen_case(rng, factory=None):
     elif fac == "wgebv_numpy":
         n, p, t = rng.randint(2, 5), rng.randint(1, 5), rng.randint(1, 3)
         crit = rng.choice(["WGEBV", "GWGEBV"])
-        fchoices = [Fraction(1), Fraction(1, 4), Fraction(1, 16), Fraction(9, 16), Fraction(1, 2), Fraction(0)]
+        # perfect squares (numpy.power(., -1/2) is exact), 0 (the guarded value) and rare favourable alleles near 1e-9
+        fchoices = [Fraction(1), Fraction(1, 4), Fraction(1, 16), Fraction(9, 16), Fraction(1, 2), Fraction(0),
+                    Fraction(1, 2 ** 30), Fraction(1, 2 ** 20)]
         case.update(crit=crit, enc=rng.choice(encs),
                     Z=[[rng.choice([0, 1, 2]) for _ in range(p)] for _ in range(n)],
                     u=[[canon.enc(Fraction(rng.choice([-5, -3, -2, -1, 1, 2, 4, 7]), rng.choice([1, 2])))
@@ -229,9 +329,19 @@ def _gen_case(rng, factory=None):
                     fafreq=[[canon.enc(rng.choice(fchoices)) for _ in range(t)] for _ in range(p)],
                     alpha=canon.enc(Fraction(1, 2) if crit == "WGEBV" else rng.choice([Fraction(0), Fraction(1, 2), Fraction(1)])))
         case["decn"] = decide(rng, case["enc"], n)
+    elif fac == "ohvmat_direct":
+        m, n, b, t = rng.choice([2, 2, 4, 1]), rng.randint(2, 6), rng.randint(1, 3), rng.randint(1, 2)
+        npar = rng.choice([1, 2, 2, 3])
+        nx = rng.randint(1, 12)
+        case.update(crit="OHV", enc=rng.choice(encs), decn=[0],
+                    H=[[[[c05._val(rng) for _ in range(t)] for _ in range(b)] for _ in range(n)] for _ in range(m)],
+                    xmap=[[rng.randrange(n) for _ in range(npar)] for _ in range(nx)],
+                    mem=rng.choice([1, 2, 3, 4, max(1, nx - 1), nx, nx + 1, None, None, 1024]))
+        if rng.random() < 0.3:
+            case["layout"] = rng.choice(["F", "strided", "neg"])
     elif fac in ("wgebv_gmat", "gebv_gmat", "mogs_gmat", "cmat", "l2_gmat", "uc", "ohv", "opv", "gb", "embv", "wgebvmat",
-                 "embvmat"):
-        pop = gen_pop(rng)
+                 "embvmat", "embvmat_real"):
+        pop = gen_pop(rng, nphase=(4 if fac in ("ohv", "opv", "gb", "mogs_gmat", "gebv_gmat") and rng.random() < 0.2 else 2))
         n = len(pop["geno"][0])
         case["pop"] = pop
         if fac == "wgebvmat":
@@ -239,10 +349,20 @@ def _gen_case(rng, factory=None):
         elif fac == "embvmat":
             pop["phased"] = True
             t = len(pop["u"][0])
-            nrep = rng.randint(1, 3)
-            case.update(crit="EMBVMAT", enc="subset", decn=[0], nrep=nrep, nprogeny=rng.randint(1, 4),
-                        tmaxs=[[[canon.enc(Fraction(rng.randint(-20, 40), 4)) for _ in range(t)] for _ in range(nrep)]
-                               for _ in range(n)])
+            # Integral arguments or per-taxon arrays with unequal entries
+            nrep = [rng.randint(1, 5) for _ in range(n)] if rng.random() < 0.6 else rng.randint(1, 3)
+            npro = [rng.randint(1, 4) for _ in range(n)] if rng.random() < 0.6 else rng.randint(1, 4)
+            reps, pros = per_taxon(nrep, n)[1], per_taxon(npro, n)[1]
+            case.update(crit="EMBVMAT", enc="subset", decn=[0], nrep=nrep, nprogeny=npro,
+                        prog=[[[[canon.enc(Fraction(rng.randint(-20, 40), 4)) for _ in range(t)] for _ in range(pros[i])]
+                               for _ in range(reps[i])] for i in range(n)])
+        elif fac == "embvmat_real":
+            t = len(pop["u"][0])
+            case["pop"] = pop = gen_pop(rng, n=n, p=len(pop["u"]), t=t, inbred=rng.choice(["full", "full", "partial"]))
+            pop["phased"] = True
+            nrep = [rng.randint(1, 5) for _ in range(n)] if rng.random() < 0.7 else rng.randint(1, 3)
+            npro = [rng.randint(1, 4) for _ in range(n)] if rng.random() < 0.7 else rng.randint(1, 4)
+            case.update(crit="EMBVMAT", enc="subset", decn=[0], nrep=nrep, nprogeny=npro, seed=rng.randint(0, 10 ** 6))
         if fac == "wgebv_gmat":
             case.update(crit=rng.choice(["WGEBV", "GWGEBV"]), enc=rng.choice(encs))
             case["alpha"] = canon.enc(Fraction(1, 2) if case["crit"] == "WGEBV" else
@@ -292,6 +412,10 @@ def _gen_case(rng, factory=None):
                         upper_percentile=canon.enc(rng.choice([Fraction(1, 10), Fraction(1, 4), Fraction(1, 2)])),
                         design=design, nparent=npar, epgc=[canon.enc(v) for v in epgc],
                         vmat=tensor(npar) if design != "real3" else None)
+            if design != "real3":
+                # mating design numbers the factory must hand to the variance factory unchanged
+                case["vargs"] = {"ncross": rng.choice([1, 2, 3]), "nprogeny": rng.choice([5, 10, 40]),
+                                 "nself": rng.choice([0, 1, 2])}
             nx = len(_xmap_py(n, npar, uniq))
             if nx == 0:              # fewer taxa than parents with unique parents: allow selfs
                 case["unique_parents"] = uniq = False
@@ -301,9 +425,12 @@ def _gen_case(rng, factory=None):
             pop["phased"] = True
             uniq = rng.random() < 0.5
             nchr = len(set(pop["chrgrp"]))
-            case.update(crit="OHV", enc=rng.choice(encs), unique_parents=uniq,
+            npar = rng.choice([2, 2, 2, 3, 3, 1])
+            if len(_xmap_py(n, npar, uniq)) == 0:
+                uniq = False
+            case.update(crit="OHV", enc=rng.choice(encs), unique_parents=uniq, nparent=npar,
                         nhaploblk=rng.randint(nchr, max(nchr, min(3, len(pop["u"]) - 1))))
-            nx = len(_xmap_py(n, 2, uniq))
+            nx = len(_xmap_py(n, npar, uniq))
             case["decn"] = decide(rng, case["enc"], nx)
         elif fac == "gb":
             pop["phased"] = True
@@ -322,8 +449,12 @@ def _gen_case(rng, factory=None):
             t = len(pop["u"][0])
             uniq = rng.random() < 0.5
             nrep = rng.randint(1, 3)
-            nx = len(_xmap_py(n, 2, uniq))
-            case.update(crit="EMBV", enc=rng.choice(encs), unique_parents=uniq, nrep=nrep,
+            npar = rng.choice([2, 2, 3, 1])
+            if len(_xmap_py(n, npar, uniq)) == 0:
+                uniq = False
+            nx = len(_xmap_py(n, npar, uniq))
+            case["margs"] = {"nmating": rng.choice([1, 2, 3]), "nprogeny": rng.choice([3, 5, 8])}
+            case.update(crit="EMBV", enc=rng.choice(encs), unique_parents=uniq, nrep=nrep, nparent=npar,
                         tmaxs=[[[canon.enc(Fraction(rng.randint(-20, 40), 4)) for _ in range(t)] for _ in range(nrep)]
                                for _ in range(nx)])
             case["decn"] = decide(rng, case["enc"], nx)
@@ -375,7 +506,15 @@ def corpus():
         # regression D54 (fixed 2fe3bbf4): locus 0 is fixed for the allele that is favourable for trait 0 (fafreq == 1)
         {"kind": "factory", "factory": "wgebvmat", "crit": "WGEBVMAT", "enc": "subset", "decn": [0], "pop": pop},
         {"kind": "factory", "factory": "embvmat", "crit": "EMBVMAT", "enc": "subset", "decn": [0], "pop": pop, "nrep": 2,
-         "nprogeny": 3, "tmaxs": [[[1, 2], [3, 6]], [[5, 1], [9, 3]], [[-2, 0], [4, 8]]]},
+         "nprogeny": 3, "prog": [[[[1, 2], [0, 1], [1, 0]], [[3, 6], [2, 5], [3, 0]]], [[[5, 1], [4, 1], [0, 0]], [[9, 3], [1, 3], [2, 2]]],
+                                 [[[-2, 0], [-3, -1], [-2, -4]], [[4, 8], [4, 7], [1, 8]]]]},
+        # per-taxon replicate / progeny counts with unequal entries (the rarely used array form of both arguments)
+        {"kind": "factory", "factory": "embvmat", "crit": "EMBVMAT", "enc": "subset", "decn": [0], "pop": pop,
+         "nrep": [3, 1, 2], "nprogeny": [2, 3, 1],
+         "prog": [[[[1, 2], [0, 7]], [[3, 6], [2, 5]], [[-4, 0], [8, 1]]], [[[5, 1], [4, 1], [0, 9]]], [[[-2, 0]], [[4, 8]]]]},
+        # fully homozygous lines, real doubled-haploid simulation: EMBV = GEBV deterministically
+        {"kind": "factory", "factory": "embvmat_real", "crit": "EMBVMAT", "enc": "subset", "decn": [0], "seed": 7,
+         "pop": dict(pop, geno=[pop["geno"][0], pop["geno"][0]]), "nrep": [4, 1, 3], "nprogeny": [2, 3, 1]},
         # three-way usefulness criterion: real variance factory, genome contributions 1/2, 1/4, 1/4
         {"kind": "factory", "factory": "uc", "crit": "UC", "enc": "real", "pop": pop, "unique_parents": False,
          "via_xmap": False, "upper_percentile": "1/10", "design": "real3", "nparent": 3, "epgc": ["1/2", "1/4", "1/4"],
@@ -386,6 +525,33 @@ def corpus():
          "bv": {"mat": [[1, -1], [0, 2], ["1/2", 3]], "location": [10, 20], "scale": [2, "1/2"], "taxa_grp": [1, 1, 2]},
          "decn": [2, 0]},
     ]
+    import random
+    rng = random.Random(50505)
+    # cross maps past the hard-coded memory chunk of _calc_ohvmat (mem = 1024 rows): 47 candidates give 1081 two-way
+    # crosses with unique parents, 45 give 1035 with selfs; the selection includes crosses of the second chunk
+    for n, uniq, enc in ((47, True, "subset"), (45, False, "real")):
+        big = gen_pop(rng, n=n, p=4, t=1, nchr=1)
+        big["phased"] = True
+        nx = len(_xmap_py(n, 2, uniq))
+        sel = [nx - 1, 1030, 3, 1024]
+        decn = sel if enc == "subset" else [("1/4" if i in sel else 0) for i in range(nx)]
+        out.append({"kind": "factory", "factory": "ohv", "crit": "OHV", "enc": enc, "pop": big, "unique_parents": uniq,
+                    "nparent": 2, "nhaploblk": 2, "decn": decn})
+    # explicit chunk sizes through the static method: several chunks, a last partial chunk, chunk = 1, no chunking
+    H = [[[[1, 5], [2, 0]], [[3, 1], [0, 4]], [[2, 2], [7, 1]]], [[[0, 6], [1, 1]], [[4, 0], [2, 2]], [[1, 3], [0, 9]]]]
+    xm = [[0, 1], [2, 2], [1, 0], [0, 2], [1, 2], [1, 1], [2, 0]]
+    for mem in (1, 2, 3, 7, None):
+        out.append({"kind": "factory", "factory": "ohvmat_direct", "crit": "OHV", "enc": "subset", "decn": [0], "H": H,
+                    "xmap": xm, "mem": mem})
+    # history: the same GenotypeMatrix / factory objects used twice with an in-place re-ordering in between
+    # (a kinship factor remembered from the first call would be in the old taxon order)
+    hp = dict(pop, geno=[[[1, 0, 1, 0], [0, 1, 0, 1], [1, 1, 1, 0]], [[1, 0, 0, 0], [1, 0, 1, 1], [0, 1, 1, 0]]],
+              taxa=[5, 9, 2], taxa_grp=[7, 3, 7])
+    for crit, h in (("OCS", {"op": "reorder", "perm": [2, 0, 1]}), ("OCS", {"op": "sort"}), ("MGR", {"op": "group"}),
+                    ("MEH", {"op": "assign_mat", "geno": [[[0, 1, 1, 0], [1, 1, 0, 1], [1, 0, 1, 0]],
+                                                         [[1, 0, 0, 1], [1, 0, 1, 1], [0, 1, 1, 1]]]})):
+        out.append({"kind": "factory", "factory": "cmat", "crit": crit, "enc": "subset", "cmatfcty": "molecular",
+                    "unscale": True, "pop": hp, "decn": [0, 2], "history": h})
     return out
 
 
@@ -397,11 +563,12 @@ def make_bvmat(bv):
     from pybrops.popgen.bvmat.DenseBreedingValueMatrix import DenseBreedingValueMatrix
     mat = numpy.array([[_f(v) for v in r] for r in bv["mat"]])
     n, t = mat.shape
+    lab = bv.get("labels", True)          # False: the optional label fields are None
     return DenseBreedingValueMatrix(mat=mat, location=numpy.array([_f(v) for v in bv["location"]]),
                                     scale=numpy.array([_f(v) for v in bv["scale"]]),
-                                    taxa=numpy.array([f"tx{i:02d}" for i in range(n)], dtype=object),
-                                    taxa_grp=numpy.array(bv["taxa_grp"], dtype="int64"),
-                                    trait=numpy.array([f"y{j}" for j in range(t)], dtype=object))
+                                    taxa=numpy.array([f"tx{i:02d}" for i in range(n)], dtype=object) if lab else None,
+                                    taxa_grp=numpy.array(bv["taxa_grp"], dtype="int64") if lab else None,
+                                    trait=numpy.array([f"y{j}" for j in range(t)], dtype=object) if lab else None)
 
 
 @contextlib.contextmanager
@@ -423,19 +590,77 @@ def _latent(p, enc, decn):
     return _enc(p.latentfn(c05.decision(enc, decn)))
 
 
+HISTORY_FACTORIES = ("bvmat", "family_bvmat", "wgebv_gmat", "gebv_gmat", "mogs_gmat", "cmat", "l2_gmat", "uc", "ohv", "opv",
+                     "gb", "wgebvmat")
+
+
+def gen_history(rng, case):
+    """a history step for a factory case: the population objects are mutated in place between two factory calls"""
+    fac = case["factory"]
+    if fac in ("bvmat", "family_bvmat"):
+        n = len(case["bv"]["mat"])
+        t = len(case["bv"]["mat"][0])
+        if rng.random() < 0.7 and n > 1:
+            perm = list(range(n))
+            while perm == list(range(n)):
+                rng.shuffle(perm)
+            return {"op": "reorder", "perm": perm}
+        c05 = _c05()
+        return {"op": "assign_mat", "mat": [[c05._val(rng) for _ in range(t)] for _ in range(n)]}
+    pop = case["pop"]
+    n = len(pop["geno"][0])
+    r = rng.random()
+    if r < 0.45 and n > 1:
+        perm = list(range(n))
+        while perm == list(range(n)):
+            rng.shuffle(perm)
+        return {"op": "reorder", "perm": perm}
+    if r < 0.7:
+        return {"op": rng.choice(["sort", "group"])}
+    if r < 0.88:
+        q = gen_pop(rng, n=n, p=len(pop["u"]), t=len(pop["u"][0]), nchr=1)
+        geno = q["geno"]
+        while len(geno) < len(pop["geno"]):
+            geno = geno + q["geno"]
+        return {"op": "assign_mat", "geno": geno[:len(pop["geno"])]}
+    q = gen_pop(rng, n=n, p=len(pop["u"]), t=len(pop["u"][0]), nchr=1)
+    return {"op": "assign_u", "u": q["u"]}
+
+
 def run(case):
+    """`history`: build once (primes whatever the code may remember about these objects), mutate the population
+    objects in place, build again from the same objects; the second problem is the one that is judged"""
+    if "history" not in case:
+        return _run(case, {})
+    pool = {}
+    before = {k: v for k, v in case.items() if k != "history"}
+    state = numpy.random.get_state()
+    try:
+        obs0 = _run(before, pool)
+    finally:
+        numpy.random.set_state(state)
+    if "skipped" in obs0:
+        return obs0
+    apply_history(case["history"], pool)
+    obs = _run(effective(case), pool)
+    return obs
+
+
+def _run(case, pool):
     c05 = _c05()
     compat.import_pybrops()
     fac, crit, enc = case["factory"], case["crit"], case["enc"]
-    if fac in ("wgebvmat", "embvmat"):
-        return run_matrix_factory(case)
+    if fac in ("wgebvmat", "embvmat", "embvmat_real"):
+        return run_matrix_factory(case, pool)
+    if fac == "ohvmat_direct":
+        return run_ohvmat_direct(case)
     cls = cls_of(crit, enc)
     decn = case["decn"]
     k = len(decn)
     obs = {}
 
     if fac in ("bvmat", "family_bvmat"):
-        bvmat = make_bvmat(case["bv"])
+        bvmat = pool["bvmat"] if "bvmat" in pool else pool.setdefault("bvmat", make_bvmat(case["bv"]))
         n, t = bvmat.mat.shape
         if fac == "bvmat":
             p = cls.from_bvmat(bvmat=bvmat, unscale=case["unscale"], **std_kwargs(enc, n, k, t))
@@ -476,9 +701,20 @@ def run(case):
         calls = []
 
         class Scripted:
+            """scripted generator: whichever standard-normal primitive is asked for gets the scripted draws"""
             def multivariate_normal(self, mean, cov, size=None, **kw):
-                calls.append({"mean": _enc(mean), "cov": _enc(cov), "size": [int(v) for v in numpy.atleast_1d(size)]})
+                calls.append({"how": "mvn", "mean": _enc(mean), "cov": _enc(cov),
+                              "size": [int(v) for v in numpy.atleast_1d(size)]})
                 return draws.copy()
+
+            def standard_normal(self, size=None, **kw):
+                calls.append({"how": "std", "size": [int(v) for v in numpy.atleast_1d(size)]})
+                return draws.copy().reshape(size)
+
+            def normal(self, loc=0.0, scale=1.0, size=None, **kw):
+                calls.append({"how": "normal", "mean": _enc(numpy.atleast_1d(loc)), "scale": _enc(numpy.atleast_1d(scale)),
+                              "size": [int(v) for v in numpy.atleast_1d(size)]})
+                return draws.copy().reshape(size)
         n, t = draws.shape
         with _patched(mod, "global_prng", Scripted()):
             p = cls.from_object(ntaxa=n, ntrait=t, **std_kwargs(enc, n, k, t))
@@ -489,8 +725,10 @@ def run(case):
 
     # ---- factories that start from a genotype matrix
     pop = case["pop"]
-    gmat = make_pgmat(pop, phased=pop.get("phased", True))
-    gpmod = make_gpmod(pop)
+    if "gmat" not in pool:
+        pool["gmat"] = make_pgmat(pop, phased=pop.get("phased", True))
+        pool["gpmod"] = make_gpmod(pop)
+    gmat, gpmod = pool["gmat"], pool["gpmod"]
     n = gmat.ntaxa
     t = gpmod.ntrait
 
@@ -544,14 +782,18 @@ def run(case):
         else:
             from pybrops.popgen.cmat.fcty.DenseGeneralizedWeightedCoancestryMatrixFactory import \
                 DenseGeneralizedWeightedCoancestryMatrixFactory as Fcty
-        made = []
+        if "fcty" not in pool:
+            class Spy(Fcty):
+                made = []
 
-        class Spy(Fcty):
-            def from_gmat(self, gmat, **kw):
-                G = super().from_gmat(gmat, **kw)
-                made.append(G)
-                return G
-        fcty = Spy()
+                def from_gmat(self, gmat, **kw):
+                    G = super().from_gmat(gmat, **kw)
+                    self.made.append(G)
+                    return G
+            pool["fcty"] = Spy()
+        fcty = pool["fcty"]
+        made = fcty.made
+        made.clear()
         if fac == "cmat":
             G0 = Fcty().from_gmat(gmat)
             if not numpy.isfinite(G0.mat).all():
@@ -617,7 +859,9 @@ def run(case):
                     return o
         uniq = case["unique_parents"]
         xm = numpy.array(_xmap_py(n, npar, uniq), dtype="int64")
-        kw = dict(nparent=npar, ncross=1, nprogeny=10, nself=0, upper_percentile=_f(case["upper_percentile"]),
+        args = case.get("vargs", {"ncross": 1, "nprogeny": 10, "nself": 0})
+        kw = dict(nparent=npar, ncross=args["ncross"], nprogeny=args["nprogeny"], nself=args["nself"],
+                  upper_percentile=_f(case["upper_percentile"]),
                   vmatfcty=Fcty(), gmapfn=HaldaneMapFunction(), unique_parents=uniq, pgmat=gmat, gpmod=gpmod,
                   **std_kwargs(enc, len(xm), k, t))
         if case["via_xmap"]:
@@ -648,8 +892,9 @@ def run(case):
         with _patched(mod, "haplobin_bounds", spy):
             if fac == "ohv":
                 uniq = case["unique_parents"]
-                nx = len(_xmap_py(n, 2, uniq))
-                p = cls.from_pgmat_gpmod(nparent=2, nhaploblk=case["nhaploblk"], unique_parents=uniq, pgmat=gmat,
+                npar = case.get("nparent", 2)
+                nx = len(_xmap_py(n, npar, uniq))
+                p = cls.from_pgmat_gpmod(nparent=npar, nhaploblk=case["nhaploblk"], unique_parents=uniq, pgmat=gmat,
                                          gpmod=gpmod, **std_kwargs(enc, nx, k, t))
                 obs.update(ohvmat=_enc(p.ohvmat), xmap=canon.enc(numpy.asarray(p.decn_space_xmap).astype(int)))
             elif fac == "gb":
@@ -672,7 +917,8 @@ def run(case):
         from pybrops.breed.prot.mate.MatingProtocol import MatingProtocol
         tm = case["tmaxs"]
         uniq = case["unique_parents"]
-        xm = _xmap_py(n, 2, uniq)
+        npar = case.get("nparent", 2)
+        xm = _xmap_py(n, npar, uniq)
         log = []
 
         class Progeny:
@@ -707,7 +953,9 @@ def run(case):
                 return BV([_f(v) for v in tm[g.cross][g.rep]])
             return orig(g, *a, **kw)
         with _patched(gpmod, "gebv", fake_gebv):
-            p = cls.from_pgmat_gpmod(nparent=2, nmating=1, nprogeny=5, nrep=case["nrep"], unique_parents=uniq,
+            ma = case.get("margs", {"nmating": 1, "nprogeny": 5})
+            p = cls.from_pgmat_gpmod(nparent=npar, nmating=ma["nmating"], nprogeny=ma["nprogeny"], nrep=case["nrep"],
+                                     unique_parents=uniq,
                                      pgmat=gmat, gpmod=gpmod, mateprot=StubMate(), **std_kwargs(enc, len(xm), k, t))
         obs.update(embv=_enc(p.embv), xmap=canon.enc(numpy.asarray(p.decn_space_xmap).astype(int)), log=log)
         obs["latent"] = _latent(p, enc, decn)
@@ -735,12 +983,22 @@ def wgebv_weight(ff):
     return w
 
 
-def run_matrix_factory(case):
+def per_taxon(v, n):
+    """an Integral or a per-taxon list -> (argument handed to the code, per-taxon list)"""
+    if isinstance(v, list):
+        return numpy.array(v, dtype="int64"), [int(x) for x in v]
+    return int(v), [int(v)] * n
+
+
+def run_matrix_factory(case, pool=None):
     """the two breeding-value-matrix factories anchored by the property"""
     compat.import_pybrops()
+    pool = {} if pool is None else pool
     pop = case["pop"]
-    gmat = make_pgmat(pop, phased=pop.get("phased", True))
-    gpmod = make_gpmod(pop)
+    if "gmat" not in pool:
+        pool["gmat"] = make_pgmat(pop, phased=pop.get("phased", True))
+        pool["gpmod"] = make_gpmod(pop)
+    gmat, gpmod = pool["gmat"], pool["gpmod"]
     if case["factory"] == "wgebvmat":
         from pybrops.model.wgebvmat.DenseWeightedGenomicEstimatedBreedingValueMatrix import \
             DenseWeightedGenomicEstimatedBreedingValueMatrix as W
@@ -751,7 +1009,16 @@ def run_matrix_factory(case):
         return {"fafreq": _enc(ff), "unscaled": _enc(un), "taxa": [str(v) for v in w.taxa],
                 "taxa_grp": [int(v) for v in w.taxa_grp]}
     mod = importlib.import_module("pybrops.model.embvmat.DenseExpectedMaximumBreedingValueMatrix")
-    tm = case["tmaxs"]
+    n = gmat.ntaxa
+    nrep_arg, nrep = per_taxon(case["nrep"], n)
+    npro_arg, npro = per_taxon(case["nprogeny"], n)
+    if case["factory"] == "embvmat_real":
+        # the real doubled-haploid simulation and the real prediction, from a seeded generator
+        with _patched(mod, "global_prng", numpy.random.default_rng(int(case["seed"]))):
+            e = mod.DenseExpectedMaximumBreedingValueMatrix.from_gmod(gpmod, gmat, nprogeny=npro_arg, nrep=nrep_arg)
+        return {"unscaled": _enc(e.unscale()), "taxa": [str(v) for v in e.taxa], "taxa_grp": [int(v) for v in e.taxa_grp]}
+    from pybrops.popgen.bvmat.DenseBreedingValueMatrix import DenseBreedingValueMatrix
+    prog = case["prog"]
     log = []
     counter = {}
 
@@ -766,21 +1033,30 @@ def run_matrix_factory(case):
         fake_dh.last = (i, r)
         return out
 
-    class BV:
-        def __init__(self, v):
-            self.v = v
-
-        def tmax(self, unscale=False):
-            return numpy.array(self.v, dtype=float) if unscale else numpy.array(self.v, dtype=float) * 0.0 - 999.0
-    orig = gpmod.gebv
-
     def fake_gebv(g, *a, **kw):
+        # the scripted breeding values of the simulated progeny, in a real breeding-value matrix (location 0, scale 1):
+        # `tmax(unscale=True)` of the real class is what the factory calls
         i, r = fake_dh.last
-        return BV([_f(v) for v in tm[i][r]])
+        vals = numpy.array(_tofloat(prog[i][r]), dtype=float)
+        t = vals.shape[1]
+        return DenseBreedingValueMatrix(mat=vals, location=numpy.zeros(t), scale=numpy.ones(t), taxa=None, taxa_grp=None,
+                                        trait=None)
     with _patched(mod, "dense_dh", fake_dh), _patched(gpmod, "gebv", fake_gebv):
-        e = mod.DenseExpectedMaximumBreedingValueMatrix.from_gmod(gpmod, gmat, nprogeny=case["nprogeny"], nrep=case["nrep"])
+        e = mod.DenseExpectedMaximumBreedingValueMatrix.from_gmod(gpmod, gmat, nprogeny=npro_arg, nrep=nrep_arg)
     return {"unscaled": _enc(e.unscale()), "taxa": [str(v) for v in e.taxa], "taxa_grp": [int(v) for v in e.taxa_grp],
             "log": log}
+
+
+def run_ohvmat_direct(case):
+    """`_calc_ohvmat` called directly (the static method every OHV class inherits) with an explicit chunk size"""
+    mod = importlib.import_module(PKG + "OptimalHaploidValueSelectionProblem")
+    c05 = _c05()
+    H = c05.relayout(numpy.array(_tofloat(case["H"]), dtype=float), case.get("layout"))
+    xm = numpy.array(case["xmap"], dtype="int64")
+    H0, x0 = H.copy(), xm.copy()
+    cls = getattr(mod, "OptimalHaploidValue" + case["enc"].capitalize() + "SelectionProblem")
+    out = cls._calc_ohvmat(len(case["H"]), H, xm, case["mem"])
+    return {"ohvmat": _enc(out), "untouched": bool((H0 == H).all() and (x0 == xm).all())}
 
 
 # --------------------------------------------------------------------------------------------
@@ -799,6 +1075,7 @@ def _spec_req(case, crit_json, n):
 
 def requests(case, obs):
     c05 = _c05()
+    case = effective(case)
     fac, crit, enc = case["factory"], case["crit"], case["enc"]
     reqs = []
     if "skipped" in obs:
@@ -836,12 +1113,13 @@ def requests(case, obs):
     elif fac == "mogs_gmat":
         pop = case["pop"]
         mk, tf = _mogs_expected(case)
-        cj = {"crit": crit.lower(), "geno": Zmat(pop), "ploidy": 2, "mkrwt": mk, "tfreq": tf}
+        cj = {"crit": crit.lower(), "geno": Zmat(pop), "ploidy": ploidy_of(pop), "mkrwt": mk, "tfreq": tf}
         reqs.append(dict(_spec_req(case, cj, len(Zmat(pop))), reported=rep))
     elif fac == "cmat":
         reqs.append({"op": "c05.kinship", "method": "mol" if case["cmatfcty"] == "molecular" else "vr",
                      "X": Zmat(case["pop"]), "ploidy": 2})
-        reqs.append({"op": "c05.spec_factor", "C": obs["C"], "K": obs["K"][0]})
+        if obs["K"]:
+            reqs.append({"op": "c05.spec_factor", "C": obs["C"], "K": obs["K"][0]})
         if crit == "OCS":
             exp = gebv_exact(case["pop"]) if case["unscale"] else obs["bv"]["mat"]
             cj = {"crit": "ocs", "C": obs["C"], "D": exp}
@@ -873,14 +1151,24 @@ def requests(case, obs):
             # composition: latentfn of the built problem against the definition on the problem's own tensor
             reqs.append(dict(_spec_req(case, {"crit": "gb", "H": obs["haplomat"], "nbest": case["nbest"]}, n), reported=rep))
         if fac == "ohv":
-            reqs.append({"op": "c05.xmap", "ntaxa": n, "nparent": 2, "unique_parents": case["unique_parents"]})
+            reqs.append({"op": "c05.xmap", "ntaxa": n, "nparent": case.get("nparent", 2),
+                         "unique_parents": case["unique_parents"]})
+            if _fin(obs["ohvmat"]):
+                # the chunk loop of _calc_ohvmat (mem = 1024 in the factories) on the model's own tensor and cross map
+                reqs.append({"op": "c05.ohvmat_chunked", "mat": pop["geno"], "u": pop["u"], "bounds": obs["bounds"],
+                             "xmap": obs["xmap"], "mem": 1024})
     elif fac == "embv":
         pop = case["pop"]
         n = len(pop["geno"][0])
-        reqs.append({"op": "c05.xmap", "ntaxa": n, "nparent": 2, "unique_parents": case["unique_parents"]})
+        reqs.append({"op": "c05.xmap", "ntaxa": n, "nparent": case.get("nparent", 2),
+                     "unique_parents": case["unique_parents"]})
         reqs.append({"op": "c05.embv", "nrep": case["nrep"], "tmaxs": case["tmaxs"], "ntrait": len(pop["u"][0])})
     elif fac == "embvmat":
-        reqs.append({"op": "c05.embv", "nrep": case["nrep"], "tmaxs": case["tmaxs"], "ntrait": len(case["pop"]["u"][0])})
+        n = len(case["pop"]["geno"][0])
+        reqs.append({"op": "c05.embvmat", "nrep": per_taxon(case["nrep"], n)[1], "prog": case["prog"],
+                     "ntrait": len(case["pop"]["u"][0])})
+    elif fac == "ohvmat_direct":
+        reqs.append({"op": "c05.ohvmat_chunked", "H": case["H"], "xmap": case["xmap"], "mem": case["mem"]})
     elif fac == "wgebvmat":
         reqs.append({"op": "c05.guard", "fafreq": obs["fafreq"]})
         w = canon.enc(wgebv_weight([[_f(v) for v in r] for r in obs["fafreq"]]))
@@ -919,6 +1207,8 @@ def _spec_latent_verdict(a, bad_spec, what):
 
 def judge(case, obs, answers):
     c05 = _c05()
+    hist = case.get("history")
+    case = effective(case)
     fac, crit, enc = case["factory"], case["crit"], case["enc"]
     bad_corr, bad_spec = [], []
     if "skipped" in obs:
@@ -984,7 +1274,15 @@ def judge(case, obs, answers):
         n, t = len(case["draws"]), len(case["draws"][0])
         c = obs["calls"]
         ident = [[1 if i == j else 0 for j in range(t)] for i in range(t)]
-        if len(c) != 1 or c[0]["size"] != [n] or not _close(c[0]["mean"], [0] * t) or not _close(c[0]["cov"], ident):
+        ok = len(c) == 1
+        if ok and c[0]["how"] == "mvn":
+            ok = c[0]["size"] == [n] and _close(c[0]["mean"], [0] * t) and _close(c[0]["cov"], ident)
+        elif ok and c[0]["how"] == "std":
+            ok = c[0]["size"] == [n, t]
+        elif ok:
+            ok = c[0]["size"] == [n, t] and all(Fraction(v) == 0 for v in c[0]["mean"]) and \
+                all(Fraction(v) == 1 for v in c[0]["scale"])
+        if not ok:
             bad_spec.append(f"draw request {c} is not one standard normal vector per taxon")
         _spec_latent_verdict(answers[0], bad_spec, "latentfn after from_object")
     elif fac == "gebv_gmat":
@@ -1008,8 +1306,8 @@ def judge(case, obs, answers):
         Z = Zmat(case["pop"])
         if obs["geno"] != Z:
             bad_spec.append(f"geno {obs['geno']} is not the population's genotype counts {Z}")
-        if obs["ploidy"] != 2:
-            bad_spec.append(f"ploidy {obs['ploidy']}")
+        if obs["ploidy"] != ploidy_of(case["pop"]):
+            bad_spec.append(f"ploidy {obs['ploidy']} is not the population's {ploidy_of(case['pop'])}")
         if not _close(mk, obs["mkrwt"]):
             bad_spec.append(f"mkrwt {obs['mkrwt']} != {mk}")
         if not _close(tf, obs["tfreq"]):
@@ -1027,7 +1325,9 @@ def judge(case, obs, answers):
                 raise RuntimeError("C13 model rejects the population: " + str(r))
             Km = r["K"]
             Kc = obs["K"][tr] if tr < nK else None
-            if Kc is None or not _kin_close(Km, Kc):
+            # (when the coancestry factory was not called at all there is no matrix to compare; the factor itself is
+            # still checked against the model's K below)
+            if Kc is not None and not _kin_close(Km, Kc):
                 bad_corr.append(f"kinship matrix (trait {tr}) C13-model={Km} factory={Kc}")
             # C^T C against the model's K, entry by entry, within the jitter allowance
             Ct = Cs[tr]
@@ -1040,8 +1340,6 @@ def judge(case, obs, answers):
         for a in answers[nmod:-1]:
             if not _ok(a)["ok"]:
                 bad_spec.append("kinship factor: C^T C differs from the kinship matrix K handed to cholesky")
-        if fac == "cmat" and nK != 1:
-            bad_spec.append(f"{nK} coancestry matrices built")
         if fac == "cmat" and crit == "OCS":
             exp = gebv_exact(case["pop"]) if case["unscale"] else obs["bv"]["mat"]
             if not _close(exp, obs["ebv"]):
@@ -1085,6 +1383,9 @@ def judge(case, obs, answers):
         s = obs["seen"]
         if not (s.get("same_pgmat") and s.get("same_gmod")):
             bad_spec.append(f"variance factory called with other objects {s}")
+        va = case.get("vargs", {"ncross": 1, "nprogeny": 10, "nself": 0})
+        if any(int(s.get(k_, -1)) != int(v_) for k_, v_ in va.items()):
+            bad_spec.append(f"variance factory asked for {({k_: s.get(k_) for k_ in va})}, the declared design is {va}")
         _check_lookup(case, obs, obs["ucmat"], lat, bad_spec)
     elif fac in ("ohv", "opv", "gb"):
         H = _ok(answers[0])
@@ -1093,9 +1394,21 @@ def judge(case, obs, answers):
             xm_model = _ok(answers[1])
             if xm_model != obs["xmap"]:
                 bad_corr.append(f"xmap model={xm_model} impl={obs['xmap']}")
+            npar = case.get("nparent", 2)
+            want_x = _xmap_py(len(pop["geno"][0]), npar, case["unique_parents"])
+            if obs["xmap"] != want_x:
+                bad_spec.append(f"cross map is not the list of all {npar}-parent tuples (unique={case['unique_parents']})")
             want = _ohv_exact(H, obs["xmap"])
             if not _close(want, obs["ohvmat"]):
-                bad_spec.append(f"ohvmat {obs['ohvmat']} is not ploidy * sum of block maxima {want}")
+                rows = [i for i, (w, o) in enumerate(zip(want, obs["ohvmat"])) if not _close(w, o)]
+                bad_spec.append(f"ohvmat rows {rows[:6]} (of {len(want)}): {[obs['ohvmat'][i] for i in rows[:3]]} are not "
+                                f"ploidy * sum of block maxima {[want[i] for i in rows[:3]]}")
+            if len(answers) > 2:
+                ch = _ok(answers[2])
+                if not _close(ch["chunked"], obs["ohvmat"]):
+                    bad_corr.append("ohvmat differs from the model's chunk loop")
+                if ch["chunked"] != ch["closed"]:
+                    bad_corr.append("model: chunk loop differs from closed form")
             _check_lookup(case, obs, obs["ohvmat"], lat, bad_spec)
         elif fac == "gb":
             if not _close(H, obs["haplomat"]):
@@ -1128,6 +1441,9 @@ def judge(case, obs, answers):
         xm_model = _ok(answers[0])
         if xm_model != obs["xmap"]:
             bad_corr.append(f"xmap model={xm_model} impl={obs['xmap']}")
+        want_x = _xmap_py(len(case["pop"]["geno"][0]), case.get("nparent", 2), case["unique_parents"])
+        if obs["xmap"] != want_x:
+            bad_spec.append(f"cross map {obs['xmap']} is not the list of all parent tuples {want_x}")
         m = _ok(answers[1])
         if not _close(m, obs["embv"]):
             bad_corr.append(f"embv model={m} impl={obs['embv']}")
@@ -1136,24 +1452,76 @@ def judge(case, obs, answers):
                 for reps in case["tmaxs"]]
         if not _close(want, obs["embv"]):
             bad_spec.append(f"embv {obs['embv']} is not the per-cross mean of the simulated maxima {want}")
-        if any(l["shape"] != [1, 2] for l in obs["log"]):
+        ma = case.get("margs", {"nmating": 1, "nprogeny": 5})
+        if any(l["nmating"] != ma["nmating"] or l["nprogeny"] != ma["nprogeny"] for l in obs["log"]):
+            bad_spec.append(f"mate() called with other numbers of matings / progeny than declared {ma}")
+        nrep_ = case["nrep"]
+        calls = [l["cross"] for l in obs["log"]]
+        if any(calls.count(ci) != nrep_ for ci in range(len(case["tmaxs"]))):
+            bad_spec.append("mate() is not called nrep times for every cross")
+        if any(l["shape"] != [1, case.get("nparent", 2)] for l in obs["log"]):
             bad_spec.append("mate() called with a cross configuration of the wrong shape")
         _check_lookup(case, obs, obs["embv"], lat, bad_spec)
     elif fac == "embvmat":
         m = _ok(answers[0])
         if not _close(m, obs["unscaled"]):
             bad_corr.append(f"embv model={m} impl={obs['unscaled']}")
-        nrep = case["nrep"]
-        want = [[canon.enc(sum(Fraction(r[j]) for r in reps[:nrep]) / nrep) for j in range(len(reps[0]))]
-                for reps in case["tmaxs"]]
+        n = len(case["prog"])
+        nrep, npro = per_taxon(case["nrep"], n)[1], per_taxon(case["nprogeny"], n)[1]
+        # definition: row i = mean over ITS OWN nrep_i replicates of the maximum over the nprogeny_i simulated progeny
+        want = [[canon.enc(sum(max(Fraction(pr[j]) for pr in rep) for rep in reps[:nrep[i]]) / nrep[i])
+                 for j in range(len(reps[0][0]))] for i, reps in enumerate(case["prog"])]
         if not _close(want, obs["unscaled"]):
-            bad_spec.append(f"EMBV matrix {obs['unscaled']} is not the per-taxon mean of the simulated maxima {want}")
-        n = len(case["tmaxs"])
-        if obs["taxa"] != [f"tx{i:02d}" for i in range(n)] or obs["taxa_grp"] != [int(v) for v in case["pop"]["taxa_grp"]]:
+            bad_spec.append(f"EMBV matrix {obs['unscaled']} is not the per-taxon mean (over nrep={case['nrep']}) of the "
+                            f"maxima of the simulated progeny {want}")
+        if obs["taxa"] != taxa_names(case["pop"]) or obs["taxa_grp"] != [int(v) for v in case["pop"]["taxa_grp"]]:
             bad_spec.append("taxa labels of the EMBV matrix are not the population's, in order")
-        if any((not l["same_parent"]) or l["nprogeny"] != case["nprogeny"] for l in obs["log"]) or \
-                [l["taxon"] for l in obs["log"]] != [i for i in range(n) for _ in range(nrep)]:
-            bad_spec.append(f"doubled-haploid simulation calls {obs['log']} are not nrep x nprogeny per taxon in order")
+        want_log = [{"taxon": i, "nprogeny": npro[i], "same_parent": True} for i in range(n) for _ in range(nrep[i])]
+        key = lambda l: (l["taxon"], l["nprogeny"], l["same_parent"])
+        if sorted(map(key, obs["log"])) != sorted(map(key, want_log)):
+            bad_spec.append(f"doubled-haploid simulation calls {obs['log']} are not nrep[i] draws of nprogeny[i] progeny per taxon")
+    elif fac == "embvmat_real":
+        pop = case["pop"]
+        n = len(pop["geno"][0])
+        gebv = gebv_exact(pop)
+        u = [[Fraction(v) for v in r] for r in pop["u"]]
+        beta = [Fraction(v) for v in pop["beta"]]
+        ph = pop["geno"]
+        pl = len(ph)
+        if not _fin(obs["unscaled"]):
+            bad_spec.append(f"EMBV matrix is not finite: {obs['unscaled']}")
+        else:
+            for i in range(n):
+                het = [m for m in range(len(u)) if len({p_[i][m] for p_ in ph}) > 1]
+                for j in range(len(beta)):
+                    v = Fraction(obs["unscaled"][i][j])
+                    if not het:
+                        # a fully homozygous line: every doubled haploid is a copy of it, EMBV = GEBV whatever nrep / nprogeny
+                        if not canon.close(v, Fraction(gebv[i][j]), 1e-9, 1e-12):
+                            bad_spec.append(f"taxon {i} is fully homozygous: EMBV[{i}][{j}] = {float(v)} must equal its "
+                                            f"GEBV {float(Fraction(gebv[i][j]))}")
+                    else:
+                        # partly inbred: every doubled haploid carries, at each locus, one of the parent's alleles twice
+                        lo = beta[j] + sum(min(pl * u[m][j] * p_[i][m] for p_ in ph) for m in range(len(u)))
+                        hi = beta[j] + sum(max(pl * u[m][j] * p_[i][m] for p_ in ph) for m in range(len(u)))
+                        tol = Fraction(1, 10 ** 9) * max(1, abs(lo), abs(hi))
+                        if not (lo - tol <= v <= hi + tol):
+                            bad_spec.append(f"EMBV[{i}][{j}] = {float(v)} is outside the range [{float(lo)}, {float(hi)}] "
+                                            f"of the doubled haploids of taxon {i}")
+        if obs["taxa"] != taxa_names(pop) or obs["taxa_grp"] != [int(v) for v in pop["taxa_grp"]]:
+            bad_spec.append("taxa labels of the EMBV matrix are not the population's, in order")
+    elif fac == "ohvmat_direct":
+        ch = _ok(answers[0])
+        if not _close(ch["chunked"], obs["ohvmat"]):
+            bad_corr.append(f"ohvmat (mem={case['mem']}) model={ch['chunked']} impl={obs['ohvmat']}")
+        if ch["chunked"] != ch["closed"]:
+            bad_corr.append("model: chunk loop differs from closed form")
+        want = _ohv_exact(case["H"], case["xmap"])
+        if not _close(want, obs["ohvmat"]):
+            bad_spec.append(f"_calc_ohvmat(mem={case['mem']}) = {obs['ohvmat']} is not ploidy * sum over blocks of the maximum "
+                            f"over parents and phases {want}")
+        if not obs["untouched"]:
+            bad_spec.append("_calc_ohvmat modified its arguments")
     elif fac == "wgebvmat":
         # the weight is transcendental: the model receives numpy's weight values (trusted) and forms Z (u * w)
         g = _ok(answers[0])
@@ -1173,7 +1541,7 @@ def judge(case, obs, answers):
         if not _close(want, obs["unscaled"], 1e-9, 1e-9):
             bad_spec.append(f"wGEBV matrix {obs['unscaled']} is not Z (u * weight) = {want}")
         n = len(case["pop"]["geno"][0])
-        if obs["taxa"] != [f"tx{i:02d}" for i in range(n)] or obs["taxa_grp"] != [int(v) for v in case["pop"]["taxa_grp"]]:
+        if obs["taxa"] != taxa_names(case["pop"]) or obs["taxa_grp"] != [int(v) for v in case["pop"]["taxa_grp"]]:
             bad_spec.append("taxa labels of the wGEBV matrix are not the population's, in order")
     else:
         raise ValueError(fac)
